@@ -110,6 +110,72 @@ CLAIMS = {
         ref="DESIGN.md section 4, C14"),
 }
 
+
+CLAIMS.update({
+    "C04": dict(
+        text="Theorems in coq/Props/C04.v (26 obligations, all at full strength, whole-stream and byte-level): c04_roundtrip: for all family "
+             "lists with valid metric/label names, arbitrary code-point help and label values, arbitrary values, timestamps, bucket and "
+             "quantile lists, and any number-printing oracle meeting the stated contract, encode fams = Ok out -> parse out = Some (view fams) "
+             "with an independent parser of text format 0.0.4 (histograms regrouped from cumulative buckets + +Inf bucket = count, _sum, "
+             "_count); c04_line_count / c04_shape_only / c04_no_raw_lf: the number of lines is a function of the shape only and no help or "
+             "label value contains a raw LF after rendering; c04_append_only / c04_entry_points: encode buf = buf ++ encode [] and the three "
+             "entry points are one function; c04_utf8; c04_err_iff (no metric, no name, UNTYPED); c04_spec_model: the executable spec is true "
+             "of the model's five answers for every input. Tied to the code by running the real TextEncoder five ways (encode / encode_utf8 "
+             "with empty and pre-filled buffers, encode_to_string) on generated family lists; inside Coq the bytes are compared with the "
+             "model, spec_c04 (independent parser) is evaluated on the implementation's bytes and the oracle contract is checked on every "
+             "number token with an exact decimal->binary64 parser.",
+        note="f64::to_string / integer to_string are Rust std: oracles whose contract is a theorem hypothesis checked on every token of every "
+             "run. Reading of format 0.0.4: exactly one blank after '# HELP name', rest verbatim (the Go parser strips further leading blanks; "
+             "no encoder could protect them). Read-back is claimed for valid names where a histogram (summary) metric has no own label le "
+             "(quantile). The writer never fails here (C17). Only axiom: FloatAxioms.SF2Prim_Prim2SF.",
+        ref="DESIGN.md section 4 C04 and section 13"),
+    "C12": dict(
+        text="Theorems in coq/Props/C12.v (27 theorems + 4 examples) for every world and every finite history of the sequential world model: a "
+             "shared counter equals the fold, in the order applied, of its direct updates and the flushed local amounts; a shared histogram "
+             "equals (up to which shard is hot) the fold of direct observations and of the batches handed over by flush, drop, "
+             "remove_label_values and local timers, count and sum bit-exact, interleaved collections change nothing; a local holds exactly "
+             "what was accumulated since its last flush/reset/creation; a second flush leaves the whole world unchanged; reset/clear touch "
+             "only the local; a clone is empty; dropping a local histogram (vector) equals a flush, dropping a local counter discards; "
+             "vector flushes hand over every cache entry and nothing else; the world invariant holds initially and is kept by every step. "
+             "Tied to the code by histories (1-3 locals + clones of a shared counter/histogram and of a vector with 2-3 children, 5-40 "
+             "operations, drops and second flushes anywhere, reads after most operations) run on the real crate and compared step by step "
+             "with the model inside Coq; spec_c12 keeps books of direct updates + flushed batches from the operations alone and judges "
+             "every value the implementation shows.",
+        note="Model of the local types of counter.rs / histogram.rs. One thread; non-negative increments; no overflow of a local u64 counter; "
+             "fewer than 2^63 observations per histogram; distinct tuples do not collide under FNV (C05). No theorem links spec_c12 to the "
+             "model (the correspondence run does). Axioms: FloatAxioms + Flocq's classical / real-number axioms (classic, sig_not_dec).",
+        ref="DESIGN.md section 4 C12 and section 13"),
+    "C18": dict(
+        text="Theorems in coq/Props/C18.v (15 theorems + 4 examples): after any history the shared count is the previous count plus non-timer "
+             "contributions plus exactly one per timer ended by stop_and_record / observe_duration / drop and per observe_closure_duration; "
+             "discarded timers change nothing but their own slot; the sum is the bit-exact fold in which a timer adds its elapsed value; the "
+             "elapsed seconds (Duration -> f64) are PROVED never negative, never NaN and never -0 for all values of Instant::elapsed; a local "
+             "timer's observation goes straight to the shared histogram and bypasses the parent local's pending batch; a second stop is "
+             "refused; a running timer is unaffected by any other operation (incl. flush/clear/drop of its parent local). Tied to the code by "
+             "histories with shared and local timers ended in all four modes (shared ones also on another thread), timers outliving their "
+             "local, closures, elapsed time as a scenario input (clock override hook), count and sum read after almost every operation.",
+        note="Instant / Duration are std, reached through the cfg(prometheus_verif) clock override. Ownership (every stop method takes self) "
+             "is what makes one stop per timer true of the code; it is modelled and the count after each stop is compared. Axioms: "
+             "FloatAxioms + Flocq's classical / real-number axioms.",
+        ref="DESIGN.md section 4 C18 and section 13"),
+    "C20": dict(
+        text="Theorems in coq/Props/C20.v (18): the arm list of src/macros.rs, re-lexed into coq/gen/MacroArms.v on every run (26 macros, 57 "
+             "arms), equals the pinned one (c20_inventory) and every arm has an invocation case; for each of 73 cases (with and without "
+             "trailing comma; labels!/opts! with 0..4 repetitions) full expansion under an executable model of macro_rules! yields exactly "
+             "the Rust spelling of the explicit-call term (c20_arm_expansion, by vm_compute); for ALL argument values and worlds the term "
+             "means: explicit constructor with those opts/labels/buckets, then register on the named or default registry; on Ok only that "
+             "registry changes, by exactly the metric behind the returned handle; a refused registration evaluates to that Err and changes "
+             "nothing; an increment through the returned handle is what that registry's next gather shows (scalar counters/gauges). Tied "
+             "to the code by a compiled harness invoking every public arm next to its explicit-call twin on run-time argument values; Coq "
+             "checks model = macro observations = twin observations and the executable spec between macro and twin.",
+        note="macro_rules! semantics are modelled for the fragment used (expr atoms, ident, literal tokens, separated repetitions, $crate, "
+             "ordered arms, nested invocations); rustc's expander is exercised only through the compiled harness; the lexer tools/macro_arms.py "
+             "and the hand-written meaning of explicit-call terms are trusted/compared on every run. A constructor refused inside a register "
+             "macro panics (the macros unwrap): the spec demands only that nothing is registered then. The update-visible-in-gather theorem "
+             "is proved for scalar counters/gauges; for histograms/vectors handle identity is the structural statement.",
+        ref="DESIGN.md section 4 C20 and section 13"),
+})
+
 NOT_YET = "the technique applies (see DESIGN.md section 4) but the check is not finished, so the property is not claimed"
 
 # properties not claimed for a reason other than "not finished"
